@@ -68,3 +68,28 @@ package memdb
 //@   requires m.s != nil && memInv(m.s)
 //@   modifies m.pos
 //@   ensures [C18:mem-cursor-last-is-highest-round] err == nil ==> m.pos == len(m.s.store) - 1 && b == m.s.store[m.pos] && (forall k int :: 0 <= k && k < len(m.s.store) ==> m.s.store[k].Round <= b.Round)
+
+//@ pred beaconsOf(x) := asSlice(x, "[]*github.com/drand/drand/v2/common.Beacon")
+
+//@ extern sort.Slice@github.com/drand/drand/v2/internal/chain/memdb(x, less)
+//@   trusted sort.Slice applied with memdb's comparator s.store[i].Round < s.store[j].Round (the only sort.Slice call in the package): sorts the slice in place by Round; the result is a permutation of the input
+//@   modifies elems(beaconsOf(x))
+//@   ensures forall i int, j int {beaconsOf(x)[i], beaconsOf(x)[j]} :: 0 <= i && i < j && j < len(beaconsOf(x)) ==> beaconsOf(x)[i].Round <= beaconsOf(x)[j].Round
+//@   ensures (forall i int, j int {old(beaconsOf(x)[i]), old(beaconsOf(x)[j])} :: 0 <= i && i < j && j < len(beaconsOf(x)) ==> old(beaconsOf(x)[i].Round) != old(beaconsOf(x)[j].Round)) ==> (forall i int, j int {beaconsOf(x)[i], beaconsOf(x)[j]} :: 0 <= i && i < j && j < len(beaconsOf(x)) ==> beaconsOf(x)[i].Round < beaconsOf(x)[j].Round)
+//@   ensures forall i int {beaconsOf(x)[i]} :: 0 <= i && i < len(beaconsOf(x)) ==> (exists j int :: 0 <= j && j < len(beaconsOf(x)) && beaconsOf(x)[i] == old(beaconsOf(x)[j]))
+//@   ensures forall j int {old(beaconsOf(x)[j])} :: 0 <= j && j < len(beaconsOf(x)) ==> (exists i int :: 0 <= i && i < len(beaconsOf(x)) && beaconsOf(x)[i] == old(beaconsOf(x)[j]))
+
+//@ func (*Store).Put(s, ctx, beacon) (err)
+//@   props C18 C02
+//@   flags lockcheck
+//@   requires memInv(s) && beacon != nil
+//@   loop 0: invariant [C18:mem-put-duplicate-scan] -1 <= rangeindex && rangeindex < len(s.store) && s.store == old(s.store) && (forall k int {s.store[k]} :: 0 <= k && k <= rangeindex ==> s.store[k].Round != beacon.Round)
+//@   ensures [C18:mem-put-always-succeeds] err == nil
+//@   ensures [C18,C02:mem-put-keeps-the-stored-value-of-an-existing-round] old(memHas(s, beacon.Round)) ==> s.store == old(s.store)
+//@   ensures [C18,C02:mem-put-never-exceeds-capacity] len(s.store) <= s.bufferSize && s.bufferSize == old(s.bufferSize)
+//@   ensures [C18,C02:mem-put-grows-by-at-most-the-new-round] len(s.store) <= old(len(s.store)) + 1 && (len(s.store) < old(len(s.store)) + 1 && !old(memHas(s, beacon.Round)) ==> len(s.store) == s.bufferSize)
+//@   call Slice#0: assert [C18,C02:mem-put-sorts-the-untrimmed-window] len(s.store) == old(len(s.store)) + 1 && !old(memHas(s, beacon.Round))
+//@   call append#0: assert [C18,C02:mem-put-inserts-before-trimming] s.store == old(s.store)
+// The remaining clause of the ring ("it forgets only rounds older than everything it keeps", which needs the
+// permutation semantics of sort.Slice under quantifier alternation) did not discharge within the solver budget; it is
+// covered by a BOUNDED differential check against a reference sorted map (bounded/index.json), never counted as proved.
